@@ -309,4 +309,440 @@ Proof.
   unfold rec_binary. cbn. rewrite IH. reflexivity.
 Qed.
 
+
+(* ------------------------------------------------------------------ container operations *)
+Definition cont_ok (t : tape) (s : list R) (c : cont) (ds : list dual) : Prop :=
+  recs_ok t s (as_records c) ds.
+
+Lemma c_unary_ok t s assign f x ds t' y : good t s -> cont_ok t s x ds ->
+  c_unary ops t assign f x = (t', y) ->
+  exists s', ext t s t' s' /\ cont_ok t' s' y (map (du f) ds) /\
+             c_tensor y = c_tensor x /\ c_shape y = c_shape x.
+Proof.
+  intros G Hx. unfold c_unary, cont_ok in *. rewrite as_records_mk in Hx.
+  destruct (c_hist x) as [h|] eqn:Eh.
+  - destruct (unary_loop ops t f (c_data x)) as [t1 ys] eqn:El. intros E. inversion E; subst t' y; clear E.
+    pose proof (unary_loop_eq h f (c_data x) t) as Q. rewrite El in Q.
+    destruct (thread_un_ok f _ _ t s t1 _ G Hx Q) as [s' [X Hy]].
+    exists s'. split; [exact X|]. split; [|split; reflexivity]. exact Hy.
+  - intros E. inversion E; subst t' y; clear E. exists s. split; [apply ext_refl; exact G|].
+    split; [|split; reflexivity]. rewrite as_records_mk. cbn [c_data c_hist].
+    revert ds Hx. induction (c_data x) as [|p r IH]; intros ds Hx; inversion Hx; subst; cbn [map]; constructor.
+    + destruct H1 as [Hv Ht]. cbn in Hv, Ht. split; [cbn; rewrite Hv; reflexivity|].
+      unfold du. cbn [fst snd r_hist]. rewrite Ht. ring.
+    + apply IH. assumption.
+Qed.
+
+Lemma c_binary_ok t s f x y dxs dys t' z : good t s -> cont_ok t s x dxs -> cont_ok t s y dys ->
+  c_binary ops t f x y = Ok (t', z) ->
+  exists s', ext t s t' s' /\ cont_ok t' s' z (db2 f dxs dys) /\
+             c_tensor z = c_tensor x /\ c_shape z = c_shape x.
+Proof.
+  intros G Hx Hy. unfold c_binary, cont_ok in *. rewrite as_records_mk in Hx, Hy.
+  destruct (negb (shape_eqb (c_tensor x) (c_shape x) (c_shape y))); [discriminate|].
+  destruct (c_hist x) as [h|] eqn:Ehx, (c_hist y) as [h2|] eqn:Ehy.
+  - destruct (Nat.eqb_spec h h2) as [<-|Hne]; cbn [negb]; [|discriminate].
+    destruct (binary_both_loop t f (c_data x) (c_data y)) as [t1 zs] eqn:El.
+    intros E. inversion E; subst t' z; clear E.
+    pose proof (both_loop_eq h f (c_data x) (c_data y) t) as Q. rewrite El in Q.
+    destruct (each_binary_ok f _ _ _ _ t s t1 _ G Hx Hy Q) as [s' [X Hz]].
+    exists s'. split; [exact X|]. split; [|split; reflexivity]. exact Hz.
+  - destruct (binary_x_loop ops t f (c_data x) (c_data y)) as [t1 zs] eqn:El.
+    intros E. inversion E; subst t' z; clear E.
+    pose proof (x_loop_eq h f (c_data x) (c_data y) t) as Q. rewrite El in Q.
+    destruct (each_binary_ok f _ _ _ _ t s t1 _ G Hx Hy Q) as [s' [X Hz]].
+    exists s'. split; [exact X|]. split; [|split; reflexivity]. exact Hz.
+  - destruct (binary_y_loop ops t f (c_data x) (c_data y)) as [t1 zs] eqn:El.
+    intros E. inversion E; subst t' z; clear E.
+    pose proof (y_loop_eq h2 f (c_data x) (c_data y) t) as Q. rewrite El in Q.
+    destruct (each_binary_ok f _ _ _ _ t s t1 _ G Hx Hy Q) as [s' [X Hz]].
+    exists s'. split; [exact X|]. split; [|split; reflexivity]. exact Hz.
+  - intros E. inversion E; subst t' z; clear E.
+    pose proof (none_loop_eq f (c_data x) (c_data y) t) as Q.
+    destruct (each_binary_ok f _ _ _ _ t s t _ G Hx Hy Q) as [s' [X Hz]].
+    exists s'. split; [exact X|]. split; [|split; reflexivity]. exact Hz.
+Qed.
+
+Lemma db_swap f d1 d2 : db (swap_binfn f) d2 d1 = db f d1 d2.
+Proof. unfold db, swap_binfn. cbn. f_equal. ring. Qed.
+
+Lemma db2_swap f : forall dxs dys, db2 (swap_binfn f) dys dxs = db2 f dxs dys.
+Proof.
+  unfold db2. induction dxs as [|dx dxr IH]; intros [|dy dyr]; cbn; try reflexivity.
+  rewrite db_swap, IH. reflexivity.
+Qed.
+
+
+(* ------------------------------------------------------------------ declarations *)
+Lemma vars_c_ok h : forall data vals t s, good t s -> length vals = length data ->
+  let t' := append_nullary_repeating ops t (length data) in
+  good t' (s ++ vals) /\
+  (forall r d, rec_ok t s r d -> rec_ok t' (s ++ vals) r d) /\
+  recs_ok t' (s ++ vals) (map (mk (Some h)) (combine data (seq (length t) (length data)))) (combine data vals).
+Proof.
+  induction data as [|x dr IH]; intros vals t s G Hl; destruct vals as [|v vr]; try discriminate; cbn zeta.
+  - cbn. rewrite app_nil_r. split; [exact G|]. split; [auto|constructor].
+  - cbn [length append_nullary_repeating append_nullary fst seq combine map].
+    set (e := mkEntry (length t) (length t) rO rO).
+    assert (He : wf_entry ops (length t) e) by (unfold wf_entry; cbn; repeat split; auto).
+    destruct (push_entry t s e v G He) as [G1 [M1 T1]].
+    assert (Hl' : length vr = length dr) by (cbn in Hl; lia).
+    destruct (IH vr (t ++ [e]) (s ++ [v]) G1 Hl') as [G2 [M2 F2]].
+    rewrite <- app_assoc in G2, M2, F2. cbn [app] in G2, M2, F2.
+    split; [exact G2|]. split; [intros r d Hr; apply M2, M1, Hr|].
+    constructor.
+    + apply M2. split; [reflexivity|]. cbn [r_hist r_idx fst snd].
+      split; [rewrite app_length; cbn; lia|]. rewrite T1. subst e. cbn. ring.
+    + replace (S (length t)) with (length (t ++ [e])) by (rewrite app_length; cbn; lia). exact F2.
+Qed.
+
+Fixpoint vars_e (t : tape) (data : list R) : tape * list rec :=
+  match data with
+  | [] => (t, [])
+  | x :: r => let '(t1, rc) := rec_variable ops t 0 x in
+              let '(t2, rs) := vars_e t1 r in (t2, rc :: rs)
+  end.
+
+Lemma fold_vars_e : forall data t acc,
+  fold_left (fun acc x => let '(t1, r) := rec_variable ops (fst acc) 0 x in (t1, snd acc ++ [r])) data (t, acc) =
+  let '(t', rs) := vars_e t data in (t', acc ++ rs).
+Proof.
+  induction data as [|x dr IH]; intros t acc; cbn [fold_left vars_e].
+  - rewrite app_nil_r. reflexivity.
+  - cbn [fst snd]. destruct (rec_variable ops t 0 x) as [t1 rc]. rewrite IH.
+    destruct (vars_e t1 dr) as [t2 rs]. rewrite <- app_assoc. reflexivity.
+Qed.
+
+Lemma vars_e_ok : forall data vals t s t' rs, good t s -> length vals = length data ->
+  vars_e t data = (t', rs) ->
+  good t' (s ++ vals) /\
+  (forall r d, rec_ok t s r d -> rec_ok t' (s ++ vals) r d) /\
+  recs_ok t' (s ++ vals) rs (combine data vals).
+Proof.
+  induction data as [|x dr IH]; intros vals t s t' rs G Hl; destruct vals as [|v vr]; try discriminate.
+  - cbn. intros E. inversion E; subst. rewrite app_nil_r. split; [exact G|]. split; [auto|constructor].
+  - cbn [vars_e rec_variable append_nullary].
+    set (e := mkEntry (length t) (length t) rO rO).
+    assert (He : wf_entry ops (length t) e) by (unfold wf_entry; cbn; repeat split; auto).
+    destruct (push_entry t s e v G He) as [G1 [M1 T1]].
+    assert (Hl' : length vr = length dr) by (cbn in Hl; lia).
+    destruct (vars_e (t ++ [e]) dr) as [t2 rr] eqn:E2. intros E. inversion E; subst t' rs; clear E.
+    destruct (IH vr (t ++ [e]) (s ++ [v]) t2 rr G1 Hl' E2) as [G2 [M2 F2]].
+    rewrite <- app_assoc in G2, M2, F2. cbn [app] in G2, M2, F2.
+    split; [exact G2|]. split; [intros r d Hr; apply M2, M1, Hr|].
+    cbn [combine]. constructor; [|exact F2].
+    apply M2. split; [reflexivity|]. cbn [r_hist r_idx fst snd].
+    split; [rewrite app_length; cbn; lia|]. rewrite T1. subst e. cbn. ring.
+Qed.
+
+(* ------------------------------------------------------------------ the seed vectors *)
+Definition seg (j n : nat) : list R := map (fun i => if Nat.eqb i j then rI else rO) (seq 0 n).
+Definition seeds_of (len : nat) (tgt : option nat) : list R :=
+  match tgt with Some p => onehot ops len p | None => repeat rO len end.
+
+Lemma map_seq_const (f : nat -> R) a n : (forall i, a <= i < a + n -> f i = rO) -> map f (seq a n) = repeat rO n.
+Proof.
+  revert a; induction n; intros a H; cbn; [reflexivity|].
+  rewrite H by lia. rewrite IHn by (intros; apply H; lia). reflexivity.
+Qed.
+
+Lemma seeds_of_zeros len tgt n : (forall p, tgt = Some p -> p < len) ->
+  seeds_of len tgt ++ repeat rO n = seeds_of (len + n) tgt.
+Proof.
+  intros H. destruct tgt as [p|]; cbn [seeds_of].
+  - unfold onehot. rewrite seq_app, map_app. f_equal. cbn [plus].
+    symmetry. apply map_seq_const. intros i Hi. specialize (H p eq_refl).
+    destruct (Nat.eqb_spec i p); [lia|reflexivity].
+  - rewrite repeat_app. reflexivity.
+Qed.
+
+Lemma map_seq_shift (f : nat -> R) a n : map f (seq a n) = map (fun i => f (a + i)) (seq 0 n).
+Proof.
+  revert a; induction n; intros a; cbn [seq map]; [reflexivity|].
+  rewrite Nat.add_0_r. f_equal. rewrite IHn. rewrite <- seq_shift, map_map.
+  apply map_ext. intros i. f_equal. lia.
+Qed.
+
+Lemma seeds_of_seg len j n : j < n ->
+  seeds_of len None ++ seg j n = seeds_of (len + n) (Some (len + j)).
+Proof.
+  intros Hj. cbn [seeds_of]. unfold onehot, seg. rewrite seq_app, map_app. f_equal.
+  - symmetry. apply map_seq_const. intros i Hi. destruct (Nat.eqb_spec i (len + j)); [lia|reflexivity].
+  - cbn [plus]. rewrite (map_seq_shift _ len). apply map_ext. intros i.
+    destruct (Nat.eqb_spec i j), (Nat.eqb_spec (len + i) (len + j)); try reflexivity; lia.
+Qed.
+
+Lemma seg_length j n : length (seg j n) = n.
+Proof. unfold seg. rewrite map_length, seq_length. reflexivity. Qed.
+
+Lemma seeds_of_length len tgt : length (seeds_of len tgt) = len.
+Proof. destruct tgt; cbn; [apply onehot_length|apply repeat_length]. Qed.
+
+
+(* ------------------------------------------------------------------ the simulation invariant *)
+Definition S_ (t : tape) (tgt : option nat) : list R := seeds_of (length t) tgt.
+Definition eok (t : tape) (s : list R) (e : econt) (ds : list dual) : Prop := recs_ok t s (e_recs e) ds.
+Definition link (c : cont) (e : econt) : Prop := c_tensor c = e_tensor e /\ c_shape c = e_shape e.
+
+Definition Seeded (x j : nat) (cenv : list cont) (eenv : list econt) (ctgt etgt : option nat) : Prop :=
+  exists c e p q, nth_error cenv x = Some c /\ nth_error eenv x = Some e /\
+    nth_error (map snd (c_data c)) j = Some p /\ nth_error (map (@r_idx R) (e_recs e)) j = Some q /\
+    ctgt = Some p /\ etgt = Some q.
+
+Definition Inv (x j : nat) (ct : tape) (cenv : list cont) (et : tape) (eenv : list econt)
+           (ctgt etgt : option nat) (fenv : list (list dual)) : Prop :=
+  good ct (S_ ct ctgt) /\ Forall2 (cont_ok ct (S_ ct ctgt)) cenv fenv /\ (forall p, ctgt = Some p -> p < length ct) /\
+  good et (S_ et etgt) /\ Forall2 (eok et (S_ et etgt)) eenv fenv /\ (forall q, etgt = Some q -> q < length et) /\
+  Forall2 link cenv eenv /\
+  (length cenv <= x -> ctgt = None /\ etgt = None) /\
+  (x < length cenv -> (ctgt = None /\ etgt = None) \/ Seeded x j cenv eenv ctgt etgt).
+
+Lemma ext_seeds t tgt t' s' : (forall p, tgt = Some p -> p < length t) ->
+  ext t (S_ t tgt) t' s' -> s' = S_ t' tgt /\ length t <= length t'.
+Proof.
+  intros Hb [[n En] [[Hl _] _]]. subst s'. unfold S_ in *.
+  rewrite app_length, seeds_of_length, repeat_length in Hl.
+  rewrite seeds_of_zeros by exact Hb. rewrite Hl. split; [reflexivity|lia].
+Qed.
+
+Lemma Seeded_app x j cenv eenv cs es ctgt etgt :
+  Seeded x j cenv eenv ctgt etgt -> Seeded x j (cenv ++ cs) (eenv ++ es) ctgt etgt.
+Proof.
+  intros (c & e & p & q & H1 & H2 & H3). exists c, e, p, q.
+  split; [rewrite nth_error_app1; [exact H1|apply nth_error_Some; congruence]|].
+  split; [rewrite nth_error_app1; [exact H2|apply nth_error_Some; congruence]|]. exact H3.
+Qed.
+
+Lemma Inv_push x j ct cenv et eenv ctgt etgt fenv ct' et' s1 s2 ctgt' etgt' cs es fs :
+  Inv x j ct cenv et eenv ctgt etgt fenv ->
+  good ct' s1 -> (forall r d, rec_ok ct (S_ ct ctgt) r d -> rec_ok ct' s1 r d) ->
+  good et' s2 -> (forall r d, rec_ok et (S_ et etgt) r d -> rec_ok et' s2 r d) ->
+  s1 = S_ ct' ctgt' -> s2 = S_ et' etgt' ->
+  (forall p, ctgt' = Some p -> p < length ct') -> (forall q, etgt' = Some q -> q < length et') ->
+  Forall2 (cont_ok ct' s1) cs fs -> Forall2 (eok et' s2) es fs -> Forall2 link cs es ->
+  (length (cenv ++ cs) <= x -> ctgt' = None /\ etgt' = None) ->
+  (x < length (cenv ++ cs) -> (ctgt' = None /\ etgt' = None) \/ Seeded x j (cenv ++ cs) (eenv ++ es) ctgt' etgt') ->
+  Inv x j ct' (cenv ++ cs) et' (eenv ++ es) ctgt' etgt' (fenv ++ fs).
+Proof.
+  intros (G1 & F1 & B1 & G2 & F2 & B2 & L & _ & _) G1' M1 G2' M2 E1 E2 B1' B2' N1 N2 NL X1 X2.
+  subst s1 s2. unfold Inv. repeat split; auto; try apply G1'; try apply G2'.
+  - apply Forall2_app; [|exact N1]. clear -F1 M1. induction F1; constructor; auto.
+    unfold cont_ok, recs_ok in *. clear -H M1. induction H; constructor; auto.
+  - apply Forall2_app; [|exact N2]. clear -F2 M2. induction F2; constructor; auto.
+    unfold eok, recs_ok in *. clear -H M2. induction H; constructor; auto.
+  - apply Forall2_app; assumption.
+  - apply X1. assumption.
+  - apply X1. assumption.
+Qed.
+
+(* an operation that leaves the seeded element alone (everything but the declaration of x) *)
+Lemma Inv_op x j ct cenv et eenv ctgt etgt fenv ct' et' s1 s2 cs es fs :
+  Inv x j ct cenv et eenv ctgt etgt fenv ->
+  ext ct (S_ ct ctgt) ct' s1 -> ext et (S_ et etgt) et' s2 ->
+  Forall2 (cont_ok ct' s1) cs fs -> Forall2 (eok et' s2) es fs -> Forall2 link cs es ->
+  Inv x j ct' (cenv ++ cs) et' (eenv ++ es) ctgt etgt (fenv ++ fs).
+Proof.
+  intros I X1 X2 N1 N2 NL. pose proof I as (G1 & F1 & B1 & G2 & F2 & B2 & L & Z1 & Z2).
+  destruct (ext_seeds ct ctgt ct' s1 B1 X1) as [E1 L1]. destruct (ext_seeds et etgt et' s2 B2 X2) as [E2 L2].
+  eapply Inv_push; eauto; try (apply X1); try (apply X2).
+  - intros p Hp. specialize (B1 p Hp). lia.
+  - intros q Hq. specialize (B2 q Hq). lia.
+  - rewrite app_length. intros H. apply Z1. lia.
+  - rewrite app_length. intros H. destruct (Nat.lt_ge_cases x (length cenv)) as [Hlt|Hge].
+    + destruct (Z2 Hlt) as [Hn|Hs]; [left; exact Hn|right; apply Seeded_app; exact Hs].
+    + left. apply Z1. exact Hge.
+Qed.
+
+
+Lemma Forall2_nth_error {A B} (P : A -> B -> Prop) l1 l2 k a :
+  Forall2 P l1 l2 -> nth_error l1 k = Some a -> exists b, nth_error l2 k = Some b /\ P a b.
+Proof.
+  intros H. revert k. induction H; intros [|k]; cbn; try discriminate.
+  - intros E. inversion E; subst. eauto.
+  - apply IHForall2.
+Qed.
+
+(* operands of an operation, on both sides, explained by the same duals *)
+Lemma Inv_get x j ct cenv et eenv ctgt etgt fenv a c :
+  Inv x j ct cenv et eenv ctgt etgt fenv -> nth_error cenv a = Some c ->
+  exists e ds, nth_error eenv a = Some e /\ cont_ok ct (S_ ct ctgt) c ds /\ eok et (S_ et etgt) e ds /\ link c e.
+Proof.
+  intros (_ & F1 & _ & _ & F2 & _ & L & _) Hc.
+  destruct (Forall2_nth_error _ _ _ _ _ F1 Hc) as [ds [Hds Hok]].
+  destruct (Forall2_nth_error _ _ _ _ _ L Hc) as [e [He Hl]].
+  exists e, ds. repeat split; try assumption; try apply Hl.
+  assert (F2' : Forall2 (fun ds e => eok et (S_ et etgt) e ds) fenv eenv).
+  { clear -F2. induction F2; constructor; auto. }
+  destruct (Forall2_nth_error _ _ _ _ _ F2' Hds) as [e' [He' Hok']]. congruence.
+Qed.
+
+Definition Iop (x j : nat) (st : tape * list cont) (est : tape * list econt) (tg : option nat * option nat)
+           (fenv : list (list dual)) : Prop :=
+  Inv x j (fst st) (snd st) (fst est) (snd est) (fst tg) (snd tg) fenv.
+
+(* ---- unary kinds *)
+Lemma sim_unary x j ct cenv et eenv ctgt etgt fenv assign code c a ct' cs et' es :
+  Inv x j ct cenv et eenv ctgt etgt fenv ->
+  cstep ops (ct, cenv) (OUnary assign code c a) = Some (Ok (ct', cs)) ->
+  estep ops (et, eenv) (OUnary assign code c a) = Some (Ok (et', es)) ->
+  exists fs, Inv x j ct' (cenv ++ cs) et' (eenv ++ es) ctgt etgt (fenv ++ fs).
+Proof.
+  intros I. cbn [cstep estep].
+  destruct (nth_error cenv a) as [cx|] eqn:Ea; [|discriminate].
+  destruct (Inv_get _ _ _ _ _ _ _ _ _ _ _ I Ea) as (ex & ds & Ee & Hc & He & Hl). rewrite Ee.
+  destruct (unfn_of ops code c) as [f|] eqn:Ef; [|discriminate].
+  destruct (c_unary ops ct assign f cx) as [t1 y] eqn:Ec. intros E; inversion E; subst ct' cs; clear E.
+  destruct (each_unary ops et code c (e_recs ex)) as [[[t2 ys]| |]|] eqn:Eu; try discriminate.
+  cbn. intros E; inversion E; subst et' es; clear E.
+  pose proof I as (G1 & _ & _ & G2 & _).
+  destruct (c_unary_ok _ _ _ _ _ _ _ _ G1 Hc Ec) as (s1 & X1 & Hy & Ht & Hs).
+  destruct (each_unary_ok code c f Ef _ _ _ _ _ _ G2 He Eu) as (s2 & X2 & Hys).
+  exists [map (du f) ds]. apply (Inv_op _ _ _ _ _ _ _ _ _ _ _ s1 s2 _ _ _ I X1 X2).
+  - constructor; [exact Hy|constructor].
+  - constructor; [exact Hys|constructor].
+  - constructor; [|constructor]. destruct Hl as [L1 L2]. split; cbn; congruence.
+Qed.
+
+(* ---- binary kinds, all four invocation modes *)
+Lemma sim_binary x j ct cenv et eenv ctgt etgt fenv mode code a b ct' cs et' es :
+  Inv x j ct cenv et eenv ctgt etgt fenv ->
+  cstep ops (ct, cenv) (OBinary mode code a b) = Some (Ok (ct', cs)) ->
+  estep ops (et, eenv) (OBinary mode code a b) = Some (Ok (et', es)) ->
+  exists fs, Inv x j ct' (cenv ++ cs) et' (eenv ++ es) ctgt etgt (fenv ++ fs).
+Proof.
+  intros I. cbn [cstep estep].
+  destruct (nth_error cenv a) as [cx|] eqn:Ea; [|discriminate].
+  destruct (nth_error cenv b) as [cy|] eqn:Eb; [|discriminate].
+  destruct (Inv_get _ _ _ _ _ _ _ _ _ _ _ I Ea) as (ex & dxs & Eea & Hcx & Hex & Hlx). rewrite Eea.
+  destruct (Inv_get _ _ _ _ _ _ _ _ _ _ _ I Eb) as (ey & dys & Eeb & Hcy & Hey & Hly). rewrite Eeb.
+  destruct (binfn_of ops code) as [f|] eqn:Ef; [|discriminate].
+  destruct (Bool.eqb (c_tensor cx) (c_tensor cy)) eqn:Etf; cbn [negb]; [|discriminate].
+  apply Bool.eqb_prop in Etf.
+  destruct (negb (Bool.eqb (e_tensor ex) (e_tensor ey))); [discriminate|].
+  destruct (Nat.eqb mode 0 && Nat.ltb 1 code); [discriminate|].
+  destruct (c_binop ops ct mode f cx cy) as [[[t1 z]| |]|] eqn:Ec; try discriminate.
+  cbn [omap fst snd]. intros E; inversion E; subst ct' cs; clear E.
+  destruct (Nat.ltb 3 mode); [discriminate|].
+  destruct (negb (shape_eqb (e_tensor ex) (e_shape ex) (e_shape ey))); [discriminate|].
+  destruct (each_binary ops et f (e_recs ex) (e_recs ey)) as [[t2 zs]| |] eqn:Eu; try discriminate.
+  cbn [omap fst snd]. intros E; inversion E; subst et' es; clear E.
+  pose proof I as (G1 & _ & _ & G2 & _).
+  destruct (each_binary_ok f _ _ _ _ _ _ _ _ G2 Hex Hey Eu) as (s2 & X2 & Hzs).
+  assert (HC : exists s1, ext ct (S_ ct ctgt) t1 s1 /\ cont_ok t1 s1 z (db2 f dxs dys) /\
+                 c_tensor z = e_tensor ex /\
+                 c_shape z = (if Nat.eqb mode 3 then e_shape ey else e_shape ex)).
+  { destruct Hlx as [Lx1 Lx2], Hly as [Ly1 Ly2]. unfold c_binop in Ec.
+    destruct mode as [|[|[|[|m]]]]; try discriminate; cbn [Nat.eqb].
+    - destruct (negb (same_list (c_hist cx) (c_hist cy))); [discriminate Ec|]. inversion Ec as [Ec'].
+      destruct (c_binary_ok _ _ _ _ _ _ _ _ _ G1 Hcx Hcy Ec') as (s1 & X1 & Hz & Ht & Hs).
+      exists s1. split; [exact X1|split; [exact Hz|split; congruence]].
+    - inversion Ec as [Ec'].
+      destruct (c_binary_ok _ _ _ _ _ _ _ _ _ G1 Hcx Hcy Ec') as (s1 & X1 & Hz & Ht & Hs).
+      exists s1. split; [exact X1|split; [exact Hz|split; congruence]].
+    - inversion Ec as [Ec'].
+      destruct (c_binary_ok _ _ _ _ _ _ _ _ _ G1 Hcx Hcy Ec') as (s1 & X1 & Hz & Ht & Hs).
+      exists s1. split; [exact X1|split; [exact Hz|split; congruence]].
+    - inversion Ec as [Ec'].
+      destruct (c_binary_ok _ _ _ _ _ _ _ _ _ G1 Hcy Hcx Ec') as (s1 & X1 & Hz & Ht & Hs).
+      rewrite db2_swap in Hz. exists s1. split; [exact X1|split; [exact Hz|split; congruence]]. }
+  destruct HC as (s1 & X1 & Hz & Ht & Hs).
+  exists [db2 f dxs dys]. apply (Inv_op _ _ _ _ _ _ _ _ _ _ _ s1 s2 _ _ _ I X1 X2).
+  - constructor; [exact Hz|constructor].
+  - constructor; [exact Hzs|constructor].
+  - constructor; [|constructor]. split; cbn; assumption.
+Qed.
+
+
+(* ---- declarations *)
+Lemma shape_valid_elements sh n : shape_valid sh n = true -> elements sh = n.
+Proof.
+  unfold shape_valid. intros H. apply andb_true_iff in H as [_ H]. apply Nat.eqb_eq. exact H.
+Qed.
+
+Lemma map_snd_combine {A B} : forall (l1 : list A) (l2 : list B), length l1 = length l2 -> map snd (combine l1 l2) = l2.
+Proof.
+  induction l1 as [|a l1 IH]; intros [|b l2] H; cbn in *; try discriminate; try reflexivity.
+  f_equal. apply IH. lia.
+Qed.
+
+Lemma nth_error_seq a n j : j < n -> nth_error (seq a n) j = Some (a + j).
+Proof.
+  revert a j; induction n; intros a j H; [lia|]. destruct j; cbn.
+  - f_equal. lia.
+  - rewrite IHn by lia. f_equal. lia.
+Qed.
+
+Lemma vars_e_idx : forall data t t' rs, vars_e t data = (t', rs) -> map (@r_idx R) rs = seq (length t) (length data).
+Proof.
+  induction data as [|x dr IH]; intros t t' rs; cbn [vars_e rec_variable append_nullary].
+  - intros E. inversion E. reflexivity.
+  - destruct (vars_e (t ++ [_]) dr) as [t2 rr] eqn:E2. intros E. inversion E; subst.
+    cbn. f_equal. rewrite (IH _ _ _ E2). rewrite app_length. cbn. f_equal. lia.
+Qed.
+
+Lemma sim_decl x j ct cenv et eenv ctgt etgt fenv tensor var sh data ct' cs et' es :
+  Inv x j ct cenv et eenv ctgt etgt fenv ->
+  cstep ops (ct, cenv) (ODecl tensor var sh data) = Some (Ok (ct', cs)) ->
+  estep ops (et, eenv) (ODecl tensor var sh data) = Some (Ok (et', es)) ->
+  exists fs ctgt' etgt', Inv x j ct' (cenv ++ cs) et' (eenv ++ es) ctgt' etgt' (fenv ++ fs) /\
+    (Seeded x j cenv eenv ctgt etgt -> ctgt' = ctgt /\ etgt' = etgt) /\
+    (var = true -> length cenv = x -> j < length data -> Seeded x j (cenv ++ cs) (eenv ++ es) ctgt' etgt').
+Proof.
+  intros I. cbn [cstep estep].
+  destruct (negb (shape_valid sh (length data)) || negb (tensor || Nat.eqb (length sh) 2)) eqn:Ev; [discriminate|].
+  apply orb_false_iff in Ev as [Ev _]. apply negb_false_iff in Ev. apply shape_valid_elements in Ev.
+  pose proof I as (G1 & F1 & B1 & G2 & F2 & B2 & L & Z1 & Z2).
+  destruct var.
+  - (* variables *)
+    unfold c_variables. rewrite Ev. intros E; inversion E; subst ct' cs; clear E.
+    rewrite fold_vars_e. destruct (vars_e et data) as [t2 rs] eqn:Ee. cbn [app].
+    intros E; inversion E; subst et' es; clear E.
+    set (n := length data) in *.
+    destruct (Nat.eq_dec (length cenv) x) as [Hx|Hx]; [destruct (Nat.lt_ge_cases j n) as [Hj|Hj]|].
+    + (* the seeded declaration *)
+      destruct (Z1 ltac:(lia)) as [-> ->].
+      assert (Hl : length (seg j n) = length data) by apply seg_length.
+      destruct (vars_c_ok 0 data (seg j n) ct (S_ ct None) G1 Hl) as (G1' & M1 & N1).
+      destruct (vars_e_ok data (seg j n) et (S_ et None) t2 rs G2 Hl Ee) as (G2' & M2 & N2).
+      fold n in G1', M1, N1.
+      assert (L1 : length (append_nullary_repeating ops ct n) = length ct + n).
+      { destruct G1' as [Q _]. rewrite app_length, Hl in Q. unfold S_ in Q. rewrite seeds_of_length in Q. lia. }
+      assert (L2 : length t2 = length et + n).
+      { destruct G2' as [Q _]. rewrite app_length, Hl in Q. unfold S_ in Q. rewrite seeds_of_length in Q. lia. }
+      exists [combine data (seg j n)], (Some (length ct + j)), (Some (length et + j)).
+      assert (SD : Seeded x j (cenv ++ [mkCont tensor sh (combine data (incrementing_indexes (length ct) n)) (Some 0)])
+                     (eenv ++ [mkECont tensor sh rs]) (Some (length ct + j)) (Some (length et + j))).
+      { eexists _, _, (length ct + j), (length et + j).
+        split; [rewrite nth_error_app2 by lia; rewrite <- Hx, Nat.sub_diag; reflexivity|].
+        split; [rewrite nth_error_app2 by (rewrite <- (Forall2_length L); lia);
+                rewrite <- (Forall2_length L), <- Hx, Nat.sub_diag; reflexivity|].
+        cbn [c_data e_recs]. unfold incrementing_indexes.
+        rewrite map_snd_combine by (rewrite seq_length; reflexivity).
+        rewrite (vars_e_idx _ _ _ _ Ee). fold n. rewrite !nth_error_seq by exact Hj. auto. }
+      split; [|split; [intros (c0 & e0 & p0 & q0 & Hc0 & _); apply nth_error_Some_lt in Hc0; lia|intros _ _ _; exact SD]].
+      eapply (Inv_push x j ct cenv et eenv None None fenv _ t2 (S_ ct None ++ seg j n) (S_ et None ++ seg j n));
+        try eassumption.
+      * unfold S_. rewrite L1. apply seeds_of_seg. exact Hj.
+      * unfold S_. rewrite L2. apply seeds_of_seg. exact Hj.
+      * intros p Hp. inversion Hp. lia.
+      * intros q Hq. inversion Hq. lia.
+      * constructor; [|constructor]. exact N1.
+      * constructor; [|constructor]. exact N2.
+      * constructor; [|constructor]. split; reflexivity.
+      * rewrite app_length. cbn. lia.
+      * intros _. right. exact SD.
+    + (* declaration of x, but no element j: nothing is seeded *)
+      admit_decl_other.
+    + admit_decl_other.
+  - (* constants *)
+    intros E; inversion E; subst ct' cs; clear E. intros E; inversion E; subst et' es; clear E.
+    exists [map (fun v => (v, rO)) data], ctgt, etgt. split; [|split; [auto|discriminate]].
+    apply (Inv_op _ _ _ _ _ _ _ _ _ _ _ _ _ _ _ _ I (ext_refl _ _ G1) (ext_refl _ _ G2)).
+    + constructor; [|constructor]. unfold cont_ok, c_constants. rewrite as_records_mk. cbn [c_data c_hist].
+      clear. induction data; cbn; constructor; auto. split; reflexivity.
+    + constructor; [|constructor]. unfold eok. cbn [e_recs].
+      clear. induction data; cbn; constructor; auto. apply rec_constant_ok.
+    + constructor; [|constructor]. split; reflexivity.
+Qed.
+
 End C06.
